@@ -20,6 +20,9 @@ SC = {"f32": ("float", 4, True), "f64": ("double", 8, True), "u64": ("std::size_
       "i64": ("long", 8, False), "u32": ("unsigned int", 4, False), "i32": ("int", 4, False), "u16": ("unsigned short", 2, False)}
 
 
+SC_RANDOM = [k for k in SC if k != "u16"]      # scalar kinds drawn for random constant / identity backends
+
+
 def prod(xs):
     p = 1
     for x in xs:
@@ -139,7 +142,35 @@ def analyse(stack):
     inf.layers = [l[0] for l in stack]
     inf.label = label(stack)
     inf.depth = len(stack)
+    inf.N, inf.ins, inf.M, inf.outs = cur["N"], cur["ins"], cur["M"], cur["outs"]
     return inf
+
+
+def view_bytes(stack):
+    """upper estimate of sizeof(non-owning data) of a stack (field_view asserts <= 256): the members of every layer plus
+    8 bytes of alignment slack per layer"""
+    total = 0
+    for i, lay in enumerate(stack):
+        k = lay[0]
+        below = analyse(stack[i + 1:]) if i + 1 < len(stack) else None
+        if k == "array":
+            total += 16
+        elif k == "constant":
+            total += SC[lay[3]][1] * lay[4]
+        elif k == "identity":
+            total += 1
+        elif k in ("strided", "morton"):
+            total += 8 * lay[2]
+        elif k == "hilbert":
+            total += 16
+        elif k == "clamp":
+            total += 2 * SC[below.ins][1] * below.N
+        elif k == "backup":
+            total += 2 * SC[below.ins][1] * below.N + SC[below.outs][1] * below.M
+        elif k == "affine":
+            total += SC[below.ins][1] * below.N * (below.N + 1)
+        total += 8
+    return total
 
 
 def label(stack):
@@ -324,9 +355,9 @@ def random_stack(rnd):
                 else:
                     st.insert(0, ["strided", ct, rnd.randrange(1, 5)])
         elif prim == "constant":
-            st = [["constant", rnd.choice(list(SC)), rnd.randrange(1, 4), rnd.choice(list(SC)), rnd.randrange(1, 5)]]
+            st = [["constant", rnd.choice(SC_RANDOM), rnd.randrange(1, 4), rnd.choice(SC_RANDOM), rnd.randrange(1, 5)]]
         else:
-            st = [["identity", rnd.choice(list(SC)), rnd.randrange(1, 5)]]
+            st = [["identity", rnd.choice(SC_RANDOM), rnd.randrange(1, 5)]]
         for _ in range(rnd.choice([0, 1, 1, 2, 2, 3, 4])):
             k = rnd.choice(["clamp", "backup", "affine", "shuffle", "cast", "deref", "nn", "linear", "nn", "linear"])
             try:
@@ -344,11 +375,14 @@ def random_stack(rnd):
                 lay = [k]
             try:
                 analyse([lay] + st)
-                st = [lay] + st
+                if view_bytes([lay] + st) <= 256:          # field_view refuses larger views (a static_assert of the library)
+                    st = [lay] + st
             except ValueError:
                 pass
         try:
             analyse(st)
+            if view_bytes(st) > 256:
+                continue
             return st
         except ValueError:
             continue
